@@ -19,6 +19,7 @@ import drv_kepler
 import drv_earth
 import drv_sphere
 import drv_precession
+import drv_sunearth
 
 YMIN, YMAX = -4712, 6000
 
@@ -637,4 +638,25 @@ def plan_C06(tier, seed):
         assumptions=["element reduction there-and-back is asserted within 5 centuries of J2000 to 1e-5 deg (the statement gives no number)"])
 
 
-PLANS = {"C06": plan_C06, "C05": plan_C05, "C18": plan_C18, "C11": plan_C11, "C07": plan_C07, "C14": plan_C14, "C15": plan_C15, "C13": plan_C13, "C12": plan_C12, "C17": plan_C17, "C02": plan_C02, "C03": plan_C03, "C04": plan_C04, "C10": plan_C10, "C01": plan_C01, "C16": plan_C16, "C19": plan_C19}
+def _nt_c08(ev):
+    return (ev["k"], ev["tf"], ev.get("nut"))
+
+
+def plan_C08(tier, seed):
+    T = ("Trace_SunEarth", "Trace.cfg")
+    nsh, per = (12, 110) if tier == "quick" else (48, 2500)
+    sh = [Shard("sunearth_%02d" % i, drv_sunearth.gen_sunearth, dict(seed=seed, shard=i, n=per), *T) for i in range(nsh)]
+    return dict(
+        mc=[MC("MC_Octa", "MC_Octa.cfg", workers=8, heap="2g", note="rotation/dot-product algebra of Sphere.tla on lattice directions")],
+        shards=sh, level="model_checking", exhaustive=False, nontrivial=_nt_c08,
+        rule="Epochs uniform in 1000..3000 (60 %) and -2000..4000 (40 %), all seasons. Per epoch: Sun geometric/apparent (both nutation "
+             "settings on the same epoch, either order) vs Earth reflected; rectangular coordinates of date, J2000, B1950 and a "
+             "mean equinox within +-3 centuries vs the of-date direction carried there by the library's precession_equatorial "
+             "(2 arcsec, norms 1e-5 AU; coarse 252 arcsec bounds enforced where the 2-arcsec clause is a known finding), Earth "
+             "J2000 ecliptic vs precession_ecliptical; mean obliquity vs the IAU cubic evaluated by TLC (3 arcsec, |T| <= 20), true "
+             "= mean + nutation, nutation vs the 18.6-year main terms on the Moon's node (witness), date argument in every accepted "
+             "form; low-accuracy solar formulas vs VSOP87 (0.02 deg, 1800-2200).",
+        assumptions=["coarse RA tolerance 0.025 deg (0.02 deg of longitude projected on the equator)"])
+
+
+PLANS = {"C08": plan_C08, "C06": plan_C06, "C05": plan_C05, "C18": plan_C18, "C11": plan_C11, "C07": plan_C07, "C14": plan_C14, "C15": plan_C15, "C13": plan_C13, "C12": plan_C12, "C17": plan_C17, "C02": plan_C02, "C03": plan_C03, "C04": plan_C04, "C10": plan_C10, "C01": plan_C01, "C16": plan_C16, "C19": plan_C19}
